@@ -721,6 +721,12 @@ def analyse(meta, r):
         f, in_canary = fn_at(meta, line)
         # a diagnostic with a rustc error code (E0277 …) is a compile error, whatever its wording
         is_viol = any(v in msg for v in VIOLATION_MSGS) and not d.get('code')
+        # a failed precondition of a FUNCTION has a second span on its `requires`; with a single span it is the built-in
+        # precondition of a float operator (`a * b` on f64: Verus has no float theory, every float operation that is not behind
+        # one of the shims is rejected this way) — a tool limit, not a statement about the code
+        if msg.strip() == 'precondition not satisfied' and len(d.get('spans', [])) == 1:
+            is_viol = False
+            msg = 'float arithmetic outside the shims (built-in precondition): ' + msg
         is_res = any(v in msg for v in RESOURCE_MSGS)
         label = (prim or {}).get('label') or ''
         text = ' | '.join(t['text'].strip() for t in (prim or {}).get('text', [])[:3])
